@@ -7,8 +7,9 @@ SPEC = {
     "rule": "three enumerations on the ASan+UBSan build, every parse in a forked child. (total) every string over a 15-token "
             "alphabet {colvar, harmonic, name, distance, group1, atomNumbers, '{', '}', LF, CRLF, 1, '#', tab, NUL, 0x80} up to "
             "length 4 (quick) / 5 (thorough) plus every string of length 5 / 6 over the 12-token alphabet with '#', and every "
-            "single-byte deletion and truncation (thorough: also replacement by each of 6 bytes) at every offset of the 86 loadable "
-            "repository test inputs (tests/input_files/*/test.in on the 104-atom deca-alanine system) and 3 own configurations; "
+            "single-byte deletion and truncation (thorough: also replacement by each of 4 bytes {, }, LF, NUL) at every offset of the 86 loadable "
+            "repository test inputs (tests/input_files/*/test.in on the 104-atom deca-alanine system) and 3 own configurations "
+            "(quick: of the smallest subset of these files that contains every (context kind, keyword) pair of the corpus); "
             "a token string is additionally checked against an independent reading of the syntax (unmatched brace or a "
             "top-level line that does not start with a global keyword => must be rejected). (strict) at every keyword "
             "occurrence, brace and value of every corpus file: 3 (thorough 7) misspellings, a copy of the keyword into every "
